@@ -125,7 +125,10 @@ def main(argv=None):
     all_obs = [o for r in results for o in r['obligations']]
     canaries = [o for o in all_obs if o['kind'] == 'canary']
     obs = [o for o in all_obs if o['kind'] != 'canary']
-    failed = [o for o in obs if o['result'] != 'proved']
+    failed = [o for o in obs if o['result'] not in ('proved', 'error')]
+    for o in obs:
+        if o['result'] == 'error':
+            errors.append({'key': o['name'], 'error': 'solver error: %s' % o.get('reason', '')[:300]})
     proved = [o for o in obs if o['result'] == 'proved']
 
     known = load_json(os.path.join(VERIF, 'known_findings.json'), {'findings': []})['findings']
